@@ -269,7 +269,18 @@ func (x *Exec) matchEmitsLoop(st *State, env *Env, pats []EventPat, ord int, fro
 	for _, p := range pats {
 		if p.Cond != nil {
 			if ord != 0 {
-				conds = append(conds, env.evalBool(p.Cond))
+				// per-iteration conditions are evaluated in the state at the start of the iteration
+				cenv := *env
+				snap := *env.st
+				snap.assumeTo = env.st
+				if env.st.assumeTo != nil {
+					snap.assumeTo = env.st.assumeTo
+				}
+				if h, ok := st.loopHeap[ord]; ok {
+					snap.heap = h
+				}
+				cenv.st = &snap
+				conds = append(conds, cenv.evalBool(p.Cond))
 			} else {
 				conds = append(conds, env.inOld().evalBool(p.Cond))
 			}
@@ -636,6 +647,10 @@ func (x *Exec) loopEnter(st *State, li *loopInfo, from *ssa.BasicBlock) {
 		st.loopEvStart = map[int]int{}
 	}
 	st.loopEvStart[li.ord] = len(st.events)
+	if st.loopHeap == nil {
+		st.loopHeap = map[int]map[string]Term{}
+	}
+	st.loopHeap[li.ord] = copyHeap(st.heap)
 	st.loopHeld = append([]HeldLock(nil), st.held...)
 	fr.prev, fr.block = from, li.header
 	fr.pc = len(x.headerPhis(li))
